@@ -66,6 +66,8 @@ def run_property(pid, tier, seed):
     configs = [((), True)]
     ctxs = []
     try:
+        rmod = getattr(reg[pid], '__module__', '').split('.')[-1]
+        Model.guard_modules = tuple(x for x in (rmod, 'dfa' if rmod == 'rules_mem' else None, 'graph', 'rules_fsm') if x)
         for defines, ndebug in configs:
             model = Model(defines=defines, ndebug=ndebug)
             ctx = Ctx(pid, model, tier)
